@@ -11,7 +11,7 @@ import ast
 from ..engine.srcmodel import AnalysisError, dotted, stmt_text, walk_local
 from ..engine.report import RuleResult
 from .common import finding
-from .c01_paths import numbering, focus_frame
+from .c01_paths import numbering, focus_frame, flat_body
 from .rounding import builtin_round_sites, bound_symbols, half_up_helper
 
 
@@ -357,7 +357,7 @@ def run(ctx) -> dict:
     else:
         r1.fail(finding('R08.1', base, node, 'size',
                         f'context.size is {s}: last() does not return the sequence length'))
-    mat = [n for n in base.node.body if isinstance(n, ast.Assign)
+    mat = [n for n in flat_body(base.node.body) if isinstance(n, ast.Assign)
            and 'self.select' in stmt_text(n.value)
            and (isinstance(n.value, ast.ListComp) or
                 (isinstance(n.value, ast.Call) and dotted(n.value.func) in ('list', 'xlist')))]
